@@ -51,7 +51,7 @@ def run_tester(code, scope, uni, name, extra_models=None):
 ALLOWED_EFFECTS = {'isinstance', 'issubclass', 'len', 'eq', 'getitem_int', 'getitem_key', 'iter', 'next', 'getattr', 'usercall',
                    'view_values', 'view_keys', 'view_items'}
 
-def shape_obligations(hint_src, conf_src='BeartypeConf()', want=('C01', 'C02', 'C09', 'C10')):
+def shape_obligations(hint_src, conf_src='BeartypeConf()', want=('C01', 'C02', 'C09', 'C10'), vacuity=False):
     """-> dict(result record).  Runs in a worker process."""
     from . import shapes
     t0 = time.time()
@@ -67,6 +67,11 @@ def shape_obligations(hint_src, conf_src='BeartypeConf()', want=('C01', 'C02', '
             caps = capture.drain()
             rec['error'] = f'generator raised {type(e).__name__}: {str(e)[:300]}'; rec['gen_exception'] = type(e).__name__
             rec['code'] = caps[-1].code if caps else None
+            from . import replaylib
+            try:
+                ok, detail = replaylib.replay_gen('defined', hint_src, conf_src, 'None', 0)
+                rec['gen_replay'] = dict(kind='defined', reproduced=ok, obj='None', r=0, detail=detail, extra=None)
+            except Exception as e2: rec['gen_replay'] = dict(kind='defined', reproduced=False, error=str(e2)[:200])
             return rec
         caps = capture.drain()
         uni = M.Universe()
@@ -89,13 +94,34 @@ def shape_obligations(hint_src, conf_src='BeartypeConf()', want=('C01', 'C02', '
         is_random = bool(conf.is_random)
         seqs = list(sp.root_sequences(hint, x))
         axioms = uni.axioms()
-        def add(name, kind, hyps, goal, prop, where=''):
+        def add(name, kind, hyps, goal, prop, where='', extra=None):
             res = prove(axioms, hyps, goal)
             o = dict(name=name, kind=kind, prop=prop, status=res.status, time=round(res.time, 4), backend=res.backend, where=where)
-            if res.status == 'refuted' and res.model is not None:
-                o['model'] = summarize_model(res.model, uni, x, r)
+            if res.status == 'refuted':
+                if res.model is not None: o['model'] = summarize_model(res.model, uni, x, r)
+                o['replay'] = try_replay(name, res, uni, x, r, hint_src, conf_src, extra)
+                o['solver_output'] = f'{res.backend}: sat' + (f' model digest {o.get("model")}' if 'model' in o else '')
             if res.status == 'undecided': o['reason'] = res.reason
             rec['obligations'].append(o)
+        if vacuity:
+            # guards against vacuity: the premises are satisfiable, and a deliberately false postcondition is refuted
+            import z3 as _z
+            def sat(f):
+                for seed in (0, 7, 23):
+                    sv = _z.Solver(); sv.set('timeout', 5000); sv.set('random_seed', seed); sv.add(*axioms); sv.add(f)
+                    rr = sv.check()
+                    if rr != _z.unknown: return rr
+                # last resort: the ground (quantifier-free) part only - still detects a contradictory premise
+                sv = _z.Solver(); sv.set('timeout', 5000); sv.add(*[a for a in axioms if not _z.is_quantifier(a)]); sv.add(f)
+                return sv.check() if sv.check() != _z.sat else 'sat-ground-only'
+            k0 = sp.k(hint)[0]
+            checks = [('canary.accepts_everything', _z.Not(_z.And(*[_z.Implies(_z.And(*s_.pc), ex.truth(v_)) for kd_, s_, v_ in outs if kd_ == 'return'])) if len(outs) > 1 else None)]
+            if k0 not in ('never',): checks.append(('pre.conforms_sat', conf_f))
+            if k0 not in ('any',): checks.append(('pre.mustreject_sat', mr_f))
+            for nm, f in checks:
+                if f is None: continue
+                rr = sat(f)
+                rec['obligations'].append(dict(name=nm, kind='vacuity', prop='vacuity', status='ok' if (rr == _z.sat or rr == 'sat-ground-only') else str(rr), time=0, backend='z3'))
         # definedness: the checker never raises (for any protocol-respecting object, conforming or not)
         for ob in ex.obls:
             add(f'{ob.kind}#{ob.name.rsplit(".", 1)[-1]}', ob.kind, list(ob.pc), ob.goal, 'C01', ob.where)
@@ -117,7 +143,7 @@ def shape_obligations(hint_src, conf_src='BeartypeConf()', want=('C01', 'C02', '
                         hy = pc + [M.len_(sterm) > 0, sp._cls(sterm, org), sp.must_reject(ih, M.item(sterm, 0))]
                         add(f'C02.nonrandom0.seq{si}.path{pi}', 'post', hy, z3.Not(tv), 'C02')
             if 'C09' in want:
-                add(f'C09.cost.path{pi}', 'cost', pc, (s.cost if not isinstance(s.cost, int) else z3.IntVal(s.cost)) <= bound, 'C09', f'bound={bound}')
+                add(f'C09.cost.path{pi}', 'cost', pc, (s.cost if not isinstance(s.cost, int) else z3.IntVal(s.cost)) <= bound, 'C09', f'bound={bound}', extra=dict(bound=bound))
             if 'C10' in want:
                 for ei, (op, tgt, detail) in enumerate(s.effects):
                     if op not in ALLOWED_EFFECTS:
@@ -149,4 +175,27 @@ def summarize_model(m, uni, x, r):
         out['inst(x)'] = cls
     except Exception as e:
         out['err'] = str(e)
+    return out
+
+REPLAY_KIND = [('C01.post', 'C01'), ('C02.mustreject', 'C02.mustreject'), ('C02.reach', 'C02.reach'), ('C02.nonrandom0', 'C02.reach'),
+               ('C02.consistent', 'C02.consistent'), ('defined', 'defined'), ('C09.cost', 'C09'), ('C10.effect', 'C10'), ('frame', 'defined')]
+def try_replay(name, res, uni, x, r, hint_src, conf_src, extra):
+    """concretise the refuting model (progressively weaker size bounds) and replay on the real code; first reproduction wins"""
+    from . import concretise, replaylib
+    kind = next((k for pre, k in REPLAY_KIND if name.startswith(pre)), None)
+    out = dict(kind=kind, reproduced=False, tried=[])
+    if kind is None or res.solver is None: return out
+    try:
+        for b, m in concretise.resolve_small(res):
+            try:
+                cz = concretise.Concretiser(m, uni, counting=(kind == 'C09'))
+                obj_src = cz.build(x); rv = concretise._int(m, r)
+                ok, detail = replaylib.replay_gen(kind, hint_src, conf_src, obj_src, rv, extra)
+            except Exception as e:
+                out['tried'].append(dict(bound=b, error=f'{type(e).__name__}: {e}'[:200])); continue
+            out['tried'].append(dict(bound=b, obj=obj_src, r=rv, reproduced=ok, detail=detail[:300]))
+            if ok:
+                out.update(reproduced=True, obj=obj_src, r=rv, detail=detail[:300], extra=extra); break
+    except Exception as e:
+        out['error'] = f'{type(e).__name__}: {e}'[:300]
     return out
